@@ -9,6 +9,7 @@ CLAIMS = {
  'C04': ('Bounded symbolic execution of the real classifier-mixin methods (pairs: predict / decision_function / score / set_threshold; triplets and quadruplets: predict / decision_function / score) on a directly constructed fitted state: components_ (k<=2,d<=2 quick; k<=3,d<=3 thorough), threshold_ and the test tuples are z3 reals, formed or given as indices through an array preprocessor, so ties are solver-chosen; every clause (<= at the threshold, strict < for triplets, sign for quadruplets, swap negation, monotonicity in the threshold, score call sites) is discharged on every feasible path.', 'DESIGN.md §3 C04'),
  'C06': ('Shape-abstract symbolic execution of the real validation prologues (check_input and every public data-taking method of every estimator, incl. each fit and calibrate_threshold): ndim 0..4 enumerated, every extent 0..4, NaN/inf/non-numeric flags, label values and count, n_components are solver variables; obligation on every path: no ValueError => well-formed (LIA, z3). The converse array-like clause is only sampled concretely (not solver-decided) and is stated as outside the claim.', 'DESIGN.md §3 C06'),
  'C05': ('Bounded symbolic execution of the real input-preparation code (_check_preprocessor, _prepare_inputs, check_input*, preprocess_tuples/points, ArrayIndexer) and the query methods on top of it: preprocessor data (3 points, d<=2) and metric are z3 reals, index arrays symbolic integers with repeats, preprocessor in {ndarray, nested list, recording callable}, tuple sizes 2/3/4 and points; term-equality with X[indices], bypass for formed data (call count), set_params taking effect, PreprocessorError wrapping for six exception types; fit-level equivalence via an AST side obligation on every fit plus a sampled concrete differential.', 'DESIGN.md §3 C05'),
+ 'C08': ('Bounded symbolic execution of every *_Supervised.fit with the base algorithm replaced by a recorder: points are z3 reals (n<=4 quick, n<=5 thorough), labels symbolic in {-1,0,1} or enumerated, every RNG draw solver-chosen (all seeds within the draw budget), NearestNeighbors by specification; the arguments that reach the base algorithm are proved term-equal to the documented composition (Constraints helper on the same random stream + tuple formation, same_length for LSML, chunks for RCA, k-NN triplets for SCML), other caller arguments pass through unchanged, no row of an unlabeled point reaches a constraint, default n_constraints = 20*n_classes^2.', 'DESIGN.md §3 C08'),
  'C16': ('Bounded symbolic execution of the real calibrate_threshold and of scikit-learn\'s real precision_recall_curve / roc_curve on symbolic distances: every label vector with both classes (n<=3 all strategies, n=4 selected quick / all thorough, n=5 thorough), every ordering and tie pattern is a path, beta / min_rate are solver variables; on each path the solver searches for a cut-off with a strictly (robustly) better criterion value than threshold_; parameter validation before _fit explored over a symbolic real and special values (None, str, nan, inf, complex, list). Float rounding at exact rate boundaries is only sampled (concrete grid) and stated as outside the solver claim.', 'DESIGN.md §3 C16'),
  'C07': ('Bounded symbolic execution of the real Constraints methods: label vectors are solver variables in {-1,0,1}^n (pairs n<=3 quick / n<=5 thorough, chunks n<=4 / n<=6) or exhaustively enumerated (k-NN triplets, n<=5, points symbolic reals incl. duplicates); every RNG draw is an arbitrary value of its range (all seeds, all rejection schedules within the stated draw budget); NearestNeighbors replaced by its specification with free tie-breaking; each soundness clause is an obligation on every feasible path.', 'DESIGN.md §3 C07'),
  'C02': ('Bounded symbolic execution of all metric views (pair_distance, pair_score, score_pairs, get_metric plain/squared, transform, get_mahalanobis_matrix) on an arbitrary real components_ and arbitrary pairs, formed or given as indices through an array preprocessor; every view is proved equal to the quadratic form of M = L^T L, M symmetric PSD, closure independence; k<=3,d<=3 quick, k<=4,d<=8 thorough.', 'DESIGN.md §3 C02'),
